@@ -90,6 +90,13 @@ def extract(config="K2", repo=REPO, force=False):
         tkey = hashlib.sha256(os.path.abspath(repo).encode()).hexdigest()[:8]
         target = os.path.join(WORK, "target-%s-%s" % (config, tkey)) if os.path.abspath(repo) != "/repo" \
             else os.path.join(WORK, "target-%s" % config)
+        scratch_target = os.path.abspath(repo) != "/repo"
+        if scratch_target and not os.path.exists(target):
+            # a scratch copy of the repository: start from the dependency build of /repo's target directory (same lock file,
+            # same flags) instead of compiling ~60 crates again; the directory is removed after the extraction
+            base = os.path.join(WORK, "target-%s" % config)
+            if os.path.isdir(base):
+                subprocess.run(["cp", "-a", base, target])
         for fp in glob.glob(os.path.join(target, "debug", ".fingerprint", "prio-*")):
             shutil.rmtree(fp, ignore_errors=True)
         env = dict(os.environ)
@@ -114,9 +121,11 @@ def extract(config="K2", repo=REPO, force=False):
             infra_fail("cargo check failed for config %s (the tree does not compile?)" % config)
         if not os.path.exists(out) or os.path.getmtime(out) < t0 - 1:
             infra_fail("fact file %s was not (re)written by the driver" % out)
+        if scratch_target:
+            shutil.rmtree(target, ignore_errors=True)
         # keep the cache small: drop fact files older than the 12 most recent
         files = sorted(glob.glob(os.path.join(WORK, "facts", "*.json")), key=os.path.getmtime)
-        for f in files[:-12]:
+        for f in files[:-48]:
             try:
                 os.remove(f)
             except OSError:
@@ -125,6 +134,11 @@ def extract(config="K2", repo=REPO, force=False):
     finally:
         fcntl.flock(lockf, fcntl.LOCK_UN)
         lockf.close()
+        if os.path.abspath(repo) != "/repo":
+            try:
+                os.remove(lockf.name)
+            except OSError:
+                pass
 
 
 if __name__ == "__main__":
